@@ -221,6 +221,17 @@ impl Obs {
     pub fn digest_into(&self, d: &mut crate::rng::Digest) {
         d.text(&format!("{self:?}"));
     }
+
+    /// What the caller observed, without the harness's own reach probe (which legitimately
+    /// differs between hash-key epochs and processes).
+    pub fn stable(&self) -> String {
+        match self {
+            Obs::Compiled { subj, slot, window, text, table, time_tests, resources, .. } => {
+                format!("Compiled {subj} {slot} {window:?} {text:?} {table:?} {time_tests} {resources}")
+            }
+            other => format!("{other:?}"),
+        }
+    }
 }
 
 /// A compiled expression as the caller sees it: something that can be rendered for a path and
